@@ -774,6 +774,15 @@ impl FromStr for FormatSpec {
     }
 }
 
+/// Only a run of decimal digits is an index: `usize::from_str` would also accept a leading `+`.
+fn parse_decimal_index(text: &str) -> Option<usize> {
+    if text.bytes().all(|b| b.is_ascii_digit()) {
+        text.parse::<usize>().ok()
+    } else {
+        None
+    }
+}
+
 #[derive(Debug, PartialEq)]
 pub enum FieldNamePart {
     Attribute(String),
@@ -805,7 +814,7 @@ impl FieldNamePart {
                         if ch == ']' {
                             return if index.is_empty() {
                                 Err(FormatParseError::EmptyAttribute)
-                            } else if let Ok(index) = index.parse::<usize>() {
+                            } else if let Some(index) = parse_decimal_index(&index) {
                                 Ok(FieldNamePart::Index(index))
                             } else {
                                 Ok(FieldNamePart::StringIndex(index))
@@ -844,7 +853,7 @@ impl FieldName {
 
         let field_type = if first.is_empty() {
             FieldType::Auto
-        } else if let Ok(index) = first.parse::<usize>() {
+        } else if let Some(index) = parse_decimal_index(&first) {
             FieldType::Index(index)
         } else {
             FieldType::Keyword(first)
